@@ -66,11 +66,20 @@ class Job:
         done = 0
         self.snaps = []
         snap_store = 2
-        for k in self.parts:
+        # late auto: the first writes happen with auto update off; then SFC_SET_UPDATE_HEADER_AUTO is switched on and an explicit
+        # SFC_UPDATE_HEADER_NOW follows before the next write (the frames written so far are in no header yet at that moment)
+        late_auto = updates and not auto and len(self.parts) >= 2 and rng.random() < 0.2
+        for pi, k in enumerate(self.parts):
             unit = rng.choice("if")
             seg = self.vals[done * ch:(done + k) * ch]
             L.append(S.w_line("h0", self.ty, unit, k if unit == "f" else k * ch, seg))
             done += k
+            if late_auto and pi == 0:
+                L += ["cmd h0 1061 1 null", "cmd h0 1060 0 null", "copy s%d s1" % snap_store]
+                self.snaps.append((snap_store, done))
+                snap_store += 1
+                auto = True
+                continue
             if updates and snap_store < 10 and (auto or rng.random() < 0.4):
                 if not auto:
                     L.append("cmd h0 1060 0 null")
